@@ -416,7 +416,7 @@ def oracle(case, obs):
                                 f"open(buffering={x['buffering']}).read({x.get('reads')}): {res!r}")
                     if res != want:
                         return ("upload_wrong_data", f"{where}: server holds {v.hex()} ({len(v)} bytes), style "
-                                f"{t.get('style')}, type {x.get('odt')}: got {res!r}, expected {want.hex()}")
+                                f"{t.get('style')}, dictionary entry {x.get('shape', 'var')} declared type {declared_type(x)}: got {res!r}, expected {want.hex()}")
         else:
             ok_err = isinstance(res, Abort) or (isinstance(res, Err) and res.kind == E_SDOCOMM)
             if x["op"] == "dl":
